@@ -21,7 +21,7 @@ func init() {
 	register(&simk.Prop{
 		ID:    "C35",
 		Level: "exploration",
-		Rule: "seeded networks of 3..4 complete DSMR nodes; one validator (the victim) is unreachable while 1..4 chunks (1..3 transactions each) are built and certified by the others (BLS signature aggregation over the real p2p handlers, quorum (N-1)/N: every reachable validator signs), so it holds none of them; a seeded subset is then handed to it locally; in 35% of the runs every chunk comes from one producer, the per-producer pending-weight limit is lowered to exactly that producer's pending weight and the victim additionally holds 1..2 chunks the producer signed for it alone (delivered through the victim's real signature-request logic); a block referencing all certificates is built by a producer, verified by every node and accepted; in 30% of the runs one chunk write of the victim's own store fails once during its Accept (transient disk error); the victim's chunk requests are answered by its peers through a fault plan drawn before the run (honest, error, garbage bytes, another valid chunk, truncated bytes; honest after <=6 faulty answers); " +
+		Rule: "seeded networks of 3..4 complete DSMR nodes; one validator (the victim) is unreachable while 1..4 chunks (1..3 transactions each) are built and certified by the others (BLS signature aggregation over the real p2p handlers, quorum (N-1)/N: every reachable validator signs), so it holds none of them; a seeded subset is then handed to it locally; in 35% of the runs every chunk comes from one producer, the per-producer pending-weight limit is lowered to exactly that producer's pending weight and the victim additionally holds 1..2 chunks the producer signed for it alone (delivered through the victim's real signature-request logic); a block referencing all certificates is built by a producer, verified by every node and accepted; in 16% of the runs only the producer answers signature requests (quorum 1/N), so it is the single holder of every chunk and the other nodes fetch in a seeded order; in 30% of the runs one chunk write of the victim's own store fails once during its Accept (transient disk error); the victim's chunk requests are answered by its peers through a fault plan drawn before the run (honest, error, garbage bytes, another valid chunk, truncated bytes, the right chunk 2.4 s or 1 s late; honest after <=6 faulty answers); " +
 			"oracle: Accept succeeds on every node and returns exactly the chunks the block's certificates reference, in certificate order, byte-identical to what the producer stored, whether a chunk was local or fetched. non-trivial = >=1 chunk fetched remotely and >=1 local on the victim; distinct = scenario hashes",
 		Exec:        c35,
 		Real:        []string{"x/dsmr.Node (BuildChunk, BuildBlock, Verify, Accept)", "x/dsmr.ChunkStorage + ChunkVerifier", "GetChunkHandler, ChunkSignatureRequestVerifier + acp118 handler/aggregator, certificate gossip handler", "typed p2p clients over avalanchego's in-memory p2p test network", "validity window over chunk certificates", "BLS signing/verification"},
@@ -76,12 +76,20 @@ func c35(r *simk.Run) *simk.Violation {
 	if c.Bool(0.3) {
 		diskFaultAt = 1 + c.Intn(3)
 	}
+	// single-holder mode: nobody but the producer answers signature requests (quorum 1/N), so the producer
+	// is the only validator that holds the chunks; every other node has to fetch them from exactly that peer
+	single := !limited && c.Bool(0.25)
+	if single {
+		for i := range plans {
+			plans[i].producer = plans[0].producer
+		}
+	}
 	nFaulty := c.Intn(7)
 	fp := &faultPlan{}
 	for i := 0; i < nFaulty; i++ {
 		fp.behaviour = append(fp.behaviour, c.Intn(nFaults))
 	}
-	sample := map[string]any{"nodes": nNodes, "victim": victim, "rate_limited": limited, "extra_chunks_on_victim_only": nExtra, "chunks": fmt.Sprintf("%+v", plans), "fault_plan": func() []string {
+	sample := map[string]any{"nodes": nNodes, "victim": victim, "rate_limited": limited, "single_holder": single, "extra_chunks_on_victim_only": nExtra, "chunks": fmt.Sprintf("%+v", plans), "fault_plan": func() []string {
 		var o []string
 		for _, b := range fp.behaviour {
 			o = append(o, fNames[b])
@@ -97,7 +105,17 @@ func c35(r *simk.Run) *simk.Violation {
 		fp.stuck = make(chan struct{}) // created inside the bubble
 		weight := &atomic.Uint64{}
 		weight.Store(1 << 40)
-		nodes, err := newNet(ctx, r.T, netCfg{N: nNodes, Window: 100_000, QuorumNum: uint64(nNodes - 1), QuorumDen: uint64(nNodes), NoSigFrom: map[int]bool{victim: true}, Plan: fp, PlanForNode: victim, Genesis: dsmr.Block{}, Weight: weight})
+		noSig := map[int]bool{victim: true}
+		qn := uint64(nNodes - 1)
+		if single {
+			qn = 1
+			for i := 0; i < nNodes; i++ {
+				if i != plans[0].producer {
+					noSig[i] = true
+				}
+			}
+		}
+		nodes, err := newNet(ctx, r.T, netCfg{N: nNodes, Window: 100_000, QuorumNum: qn, QuorumDen: uint64(nNodes), NoSigFrom: noSig, Plan: fp, PlanForNode: victim, Genesis: dsmr.Block{}, Weight: weight})
 		if err != nil {
 			fail("harness", "network: %v", err)
 			return
@@ -204,6 +222,15 @@ func c35(r *simk.Run) *simk.Violation {
 			}
 		}
 		order = append(order, victim)
+		if single && c.Bool(0.7) {
+			// nobody but the producer holds the chunks yet: the nodes fetch in a seeded order
+			perm := c.Perm(len(order))
+			shuffled := make([]int, len(order))
+			for a, b := range perm {
+				shuffled[a] = order[b]
+			}
+			order = shuffled
+		}
 		for _, i := range order {
 			n := nodes[i]
 			if err := n.Node.Verify(ctx, dsmr.Block{}, blk); err != nil {
